@@ -268,8 +268,8 @@ func genConc(r *rand.Rand, tcp bool) *Case {
 
 func run(m *mon.M) {
 	r := m.Rand("cases")
-	for i := 0; i < m.N(16, 200); i++ {
-		od := &OpDefaults{Kind: "op-client-defaults", OpJar: i&1 != 0, Warm: i&2 != 0, OpTransport: i&4 != 0}
+	for i := 0; i < m.N(24, 240); i++ {
+		od := &OpDefaults{Kind: "op-client-defaults", OpJar: i&1 != 0, Warm: i&2 != 0, OpTransport: i&4 != 0, OpCtx: []string{"", "background", "todo"}[(i/8)%3]}
 		m.Begin(od)
 		runOpDefaults(m, od)
 	}
